@@ -13,4 +13,8 @@ CHECKS = {
         "text": "Theorems (closed under the global context) for the model of SubAlign, SelectSites, InversePositions, InverseCoordinates, TrimSequences, DiffWithFirst/ReplaceMatchChars and Split: success exactly on in-range arguments (the <-> covers -1, 0, L-1, L, L+1), returned columns are exactly the addressed ones in the addressed order with names kept, complements are sorted/disjoint/exhaustive, windows tile rows, diff-then-replace is the identity, partition blocks are the assigned columns and partition the sites. RefCoordinates minimal-window, prefix+suffix Concat re-assembly and transpose-twice are explicit statements checked on every generated case (bounded), not proved.",
         "note": "Partial: three clauses validated by correspondence only (see Props/C04.v *_statement). Trusted: kernel+VM, harness, hand model over rectangular rows with distinct names.",
     },
+    "C12": {
+        "text": "Theorems (closed under the global context): the cut-off rule is exactly 'count >= cutoff*total, or count > 0 at cutoff 0' over Q; for every decision vector the reported kept/removed indices are ascending, disjoint and a permutation of all columns; plain mode removes exactly the qualifying sites; ends mode removes exactly the maximal qualifying prefix and suffix (maximality proved) and reports their lengths; the result is the selection of kept columns with names and order intact; the per-sequence variant keeps exactly the non-qualifying rows. The model of the per-site counting (ignore options, alphabet wildcard, case folding, inverted selection, majority via MaxCharStats) is tied to the code by the per-run correspondence.",
+        "note": "Trusted: kernel+VM, harness, hand model; cut-offs in Q, fed as dyadic rationals (exact in float64).",
+    },
 }
